@@ -1,6 +1,6 @@
 (* Lemmas about Model/Console.v used by Properties/C20.v. *)
 From Coq Require Import List NArith Bool Arith Lia.
-From Mkdb Require Import Model.Console.
+From Mkdb Require Import Model.Console Spec.ConsoleSpec.
 Import ListNotations.
 Open Scope N_scope.
 
@@ -47,8 +47,6 @@ Qed.
 Lemma S_app a s b : S s (a ++ b) = S (S s a) b.
 Proof. unfold S at 1. rewrite pieces_app. reflexivity. Qed.
 
-Definition pending (l : list N) : list (list N) := fst (split_statements l).
-Definition complete (l : list N) : bool := snd (split_statements l).
 Definition tstr (p : list N) : list N := trim (to_str p).
 
 Lemma split_unfold l :
@@ -131,44 +129,9 @@ Qed.
 (* The session over keys equals splitting the flat text                                  *)
 (* ------------------------------------------------------------------------------------ *)
 
-(* keys that the model covers when typed: everything except Ctrl-C, Ctrl-D and the editing keys *)
-Fixpoint clean (p : bool) (ks : list N) : bool :=
-  match ks with
-  | [] => true
-  | k :: r =>
-      if p then (if k =? keyPasteEnd then clean false r else clean true r)
-      else if k =? keyPasteStart then clean true r
-      else negb (k =? keyCtrlC) && negb (k =? keyCtrlD) && negb (is_edit_key k) && clean false r
-  end.
 
-(* the text the keys put into the line buffer: Enter counts as one space, typed
-   non-printable keys are ignored, every key is taken literally during a paste *)
-Fixpoint flat (p : bool) (ks : list N) : list N :=
-  match ks with
-  | [] => []
-  | k :: r =>
-      if p then
-        if k =? keyPasteEnd then flat false r
-        else if k =? keyEnter then 32 :: flat true r else k :: flat true r
-      else if k =? keyPasteStart then flat true r
-      else if k =? keyEnter then 32 :: flat false r
-      else if is_printable k then k :: flat false r else flat false r
-  end.
 
-(* no typed printable key arrives while the line holds exactly maxLineLength runes *)
-Fixpoint fits (t : term) (lip : bool) (ks : list N) : bool :=
-  match ks with
-  | [] => true
-  | k :: r =>
-      (paste t || negb (is_printable k) || negb (Nat.eqb (length (line t)) maxLineLength)) &&
-      match process_key t lip k with
-      | PStop _ => true
-      | PCont t' lip' => fits t' lip' r
-      | PLine _ _ t' => fits t' (paste t') r
-      end
-  end.
 
-Definition all_lines (os : list rl_out) : bool := negb (existsb is_stop os).
 
 Lemma enter_not_printable : is_printable keyEnter = false.
 Proof. reflexivity. Qed.
@@ -259,41 +222,12 @@ Qed.
 (* Well-formed statements (with line-break marks) and scripts                            *)
 (* ------------------------------------------------------------------------------------ *)
 
-(* A typed text is a list of keys in which keyEnter (13) marks a line break. *)
-Definition brk : N := keyEnter.
 
-(* runes the theorem quantifies over: printable for the terminal, not DEL (= Backspace),
-   unchanged by the []rune -> string conversion *)
-Definition valid_rune (r : N) : bool :=
-  is_printable r && (fix_rune r =? r) && negb (r =? keyBackspace).
 
-(* the buffer text produced by a typed text: every break becomes one space *)
-Definition text_of (m : list N) : list N := map (fun k => if k =? brk then 32 else k) m.
-(* the text without the breaks *)
-Definition nobrk (m : list N) : list N := filter (fun k => negb (k =? brk)) m.
 
-(* wf_from q m: m (scanned from quote state q) is one statement: it ends with its only
-   ';' outside literals; literals contain no backslash, no line break and not their own
-   quote kind; breaks occur outside literals only; all runes are valid *)
-Fixpoint wf_from (q : N) (m : list N) : bool :=
-  match m with
-  | [] => false
-  | c :: r =>
-      if q =? 0 then
-        if c =? brk then wf_from 0 r
-        else valid_rune c &&
-             (if c =? 59 then match r with [] => true | _ => false end
-              else if (c =? 39) || (c =? 34) then wf_from c r else wf_from 0 r)
-      else valid_rune c && negb (c =? 92) && (if c =? q then wf_from 0 r else wf_from q r)
-  end.
 
-Definition wf_stmt (m : list N) : bool := wf_from 0 m.
 
-(* separators between statements: breaks and printable white space *)
-Definition wf_sep (sp : list N) : bool :=
-  forallb (fun k => (k =? brk) || (valid_rune k && is_space k)) sp.
 
-Definition wf_unit (u : list N * list N) : bool := wf_stmt (fst u) && wf_sep (snd u).
 
 Definition quote_state (q : N) : Prop := q = 0 \/ q = 39 \/ q = 34.
 
@@ -374,8 +308,6 @@ Proof.
   cbn [to_str map all_space forallb]. rewrite Hfx, Hsp. exact IH2.
 Qed.
 
-Definition unit_text (u : list N * list N) : list N := text_of (fst u) ++ text_of (snd u).
-Definition normalise (m : list N) : list N := trim (text_of m).
 
 Lemma unit_then u x : wf_unit u = true ->
   pending (unit_text u ++ x) = normalise (fst u) :: pending x /\
@@ -406,9 +338,6 @@ Proof.
   subst. reflexivity.
 Qed.
 
-(* ---- delivery: chunks of the typed text, each either typed or bracketed-pasted ---- *)
-Definition deliver (pcs : list (bool * list N)) : list N :=
-  concat (map (fun pc : bool * list N => if fst pc then keyPasteStart :: snd pc ++ [keyPasteEnd] else snd pc) pcs).
 
 Definition item_ok (k : N) : bool := (k =? brk) || valid_rune k.
 
@@ -527,9 +456,6 @@ Proof.
       unfold all_lines in *. cbn [existsb is_stop orb] in H. exact H.
 Qed.
 
-(* ---- the script theorem ---- *)
-Definition unit_keys (u : list N * list N) : list N := fst u ++ snd u.
-Definition script_keys (us : list (list N * list N)) : list N := concat (map unit_keys us).
 
 Lemma text_of_app a b : text_of (a ++ b) = text_of a ++ text_of b.
 Proof. apply map_app. Qed.
@@ -654,3 +580,228 @@ Proof.
   unfold complete. rewrite split_unfold. cbn [snd]. rewrite B.
   rewrite (wf_prefix_to_str m 0 p x Hm E), Hs. apply andb_false_r.
 Qed.
+
+(* ------------------------------------------------------------------------------------ *)
+(* Literals and words of the submitted statement                                         *)
+(* ------------------------------------------------------------------------------------ *)
+
+Lemma nobrk_valid c r : valid_rune c = true -> nobrk (c :: r) = c :: nobrk r.
+Proof. intros H. unfold nobrk. cbn [filter]. rewrite (valid_not_brk c H). reflexivity. Qed.
+
+Lemma nobrk_brk r : nobrk (brk :: r) = nobrk r.
+Proof. reflexivity. Qed.
+
+Lemma text_valid c r : valid_rune c = true -> text_of (c :: r) = c :: text_of r.
+Proof. intros H. unfold text_of. cbn [map]. rewrite (valid_not_brk c H). reflexivity. Qed.
+
+Lemma text_brk r : text_of (brk :: r) = 32 :: text_of r.
+Proof. reflexivity. Qed.
+
+Lemma lits_cons s c r :
+  lits s (c :: r) =
+  (if fst s =? 0 then
+     if fst (fst (step_q s c)) =? 0 then lits (fst (step_q s c)) r else cons_head c (lits (fst (step_q s c)) r)
+   else if fst (fst (step_q s c)) =? 0 then [c] :: lits (fst (step_q s c)) r
+   else cons_head c (lits (fst (step_q s c)) r)).
+Proof. reflexivity. Qed.
+
+Lemma step_q_wf q c : valid_rune c = true ->
+  fst (step_q (q, false) c) =
+    if q =? 0 then (if (c =? 39) || (c =? 34) then (c, false) else (0, false))
+    else if c =? 92 then (q, true) else if c =? q then (0, false) else (q, false).
+Proof.
+  intros _. unfold step_q. destruct (q =? 0); cbn [negb].
+  - destruct ((c =? 39) || (c =? 34)); [reflexivity|]. destruct (c =? 59); reflexivity.
+  - destruct (c =? 92); [reflexivity|]. destruct (c =? q); reflexivity.
+Qed.
+
+Lemma lits_text m : forall q, quote_state q -> wf_from q m = true ->
+  lits (q, false) (text_of m) = lits (q, false) (nobrk m).
+Proof.
+  induction m as [|c r IH]; intros q Hq H; [discriminate|].
+  cbn [wf_from] in H. destruct (q =? 0) eqn:Eq.
+  - apply N.eqb_eq in Eq. subst q. destruct (c =? brk) eqn:Eb.
+    + apply N.eqb_eq in Eb. subst c. rewrite text_brk, nobrk_brk, lits_cons.
+      change (step_q (0, false) 32) with (0, false, false). cbn [fst snd N.eqb].
+      apply IH; [left; reflexivity|exact H].
+    + apply andb_true_iff in H as [Hv H]. rewrite (text_valid c r Hv), (nobrk_valid c r Hv), !lits_cons.
+      rewrite (step_q_wf 0 c Hv). cbn [N.eqb].
+      destruct (c =? 59) eqn:E59.
+      * destruct r; [reflexivity|discriminate].
+      * destruct ((c =? 39) || (c =? 34)) eqn:Equ.
+        -- assert (Hqs : quote_state c).
+           { apply orb_true_iff in Equ as [E|E]; apply N.eqb_eq in E; subst c; [right; left|right; right]; reflexivity. }
+           rewrite (IH c Hqs H). reflexivity.
+        -- rewrite (IH 0 (or_introl eq_refl) H). reflexivity.
+  - apply andb_true_iff in H as [Hv H]. apply andb_true_iff in Hv as [Hv H92]. apply negb_true_iff in H92.
+    rewrite (text_valid c r Hv), (nobrk_valid c r Hv), !lits_cons, (step_q_wf q c Hv), Eq, H92.
+    destruct (c =? q).
+    + rewrite (IH 0 (or_introl eq_refl) H). reflexivity.
+    + rewrite (IH q Hq H). reflexivity.
+Qed.
+
+Lemma space_step c : is_space c = true -> step_q q0 c = (q0, false).
+Proof.
+  intros H. destruct (space_not_special c H) as (E1 & E2 & E3). unfold step_q, q0. cbn [N.eqb negb].
+  rewrite E1, E2, E3. reflexivity.
+Qed.
+
+Lemma lits_trim_left t : lits q0 (trim_left t) = lits q0 t.
+Proof.
+  induction t as [|c r IH]; [reflexivity|]. cbn [trim_left]. destruct (is_space c) eqn:E; [|reflexivity].
+  rewrite lits_cons, (space_step c E). cbn [fst N.eqb q0]. exact IH.
+Qed.
+
+Lemma wf_ends m : forall q, wf_from q m = true -> exists a, text_of m = a ++ [59].
+Proof.
+  induction m as [|c r IH]; intros q H; [discriminate|]. cbn [wf_from] in H.
+  assert (Hr : forall q', wf_from q' r = true -> exists a, text_of (c :: r) = a ++ [59]).
+  { intros q' Hw. destruct (IH q' Hw) as [a Ha]. exists ((if c =? brk then 32 else c) :: a).
+    cbn [text_of map]. fold (text_of r). rewrite Ha. reflexivity. }
+  destruct (q =? 0).
+  - destruct (c =? brk) eqn:Eb; [eapply Hr; exact H|].
+    apply andb_true_iff in H as [Hv H]. destruct (c =? 59) eqn:E59.
+    + destruct r; [|discriminate]. apply N.eqb_eq in E59. subst c. exists []. reflexivity.
+    + destruct ((c =? 39) || (c =? 34)); eapply Hr; exact H.
+  - apply andb_true_iff in H as [_ H]. destruct (c =? q); eapply Hr; exact H.
+Qed.
+
+Lemma trim_left_keeps_end a : exists a', trim_left (a ++ [59]) = a' ++ [59].
+Proof.
+  induction a as [|c r IH]; [exists []; reflexivity|]. cbn [app trim_left].
+  destruct (is_space c); [exact IH|]. exists (c :: r). reflexivity.
+Qed.
+
+Lemma trim_ends_semicolon a : trim (a ++ [59]) = trim_left (a ++ [59]).
+Proof.
+  unfold trim. destruct (trim_left_keeps_end a) as [a' Ha]. rewrite Ha, rev_app_distr. cbn [rev app trim_left].
+  change (is_space 59) with false. cbn iota. rewrite <- (rev_involutive a') at 2.
+  change (59 :: rev a') with ([59] ++ rev a'). rewrite rev_app_distr, rev_involutive. reflexivity.
+Qed.
+
+Lemma literal_intact m : wf_stmt m = true -> literals (normalise m) = literals (nobrk m).
+Proof.
+  intros H. unfold wf_stmt in H. unfold literals, normalise. destruct (wf_ends m 0 H) as [a Ha].
+  rewrite Ha, trim_ends_semicolon, lits_trim_left, <- Ha. apply (lits_text m 0 (or_introl eq_refl) H).
+Qed.
+
+(* ---- words ---- *)
+Lemma wds_cons s inw c r :
+  wds s inw (c :: r) =
+  (if (fst s =? 0) && is_space c then (if inw then [[]] else []) ++ wds (fst (step_q s c)) false r
+   else cons_head c (wds (fst (step_q s c)) true r)).
+Proof. reflexivity. Qed.
+
+Lemma quote_not_space q : quote_state q -> q <> 0 -> is_space q = false.
+Proof. intros [-> | [-> | ->]] H; [contradiction|reflexivity|reflexivity]. Qed.
+
+Lemma wds_text m :
+  (forall q inw prev, quote_state q -> wf_from q m = true -> breaks_at_spaces prev m = true ->
+     (q = 0 -> prev = negb inw) -> (q <> 0 -> inw = true) ->
+     wds (q, false) inw (text_of m) = wds (q, false) inw (nobrk m)) /\
+  (wf_from 0 m = true -> next_sp m = true -> breaks_at_spaces false m = true ->
+     [] :: wds q0 false (text_of m) = wds q0 true (nobrk m)).
+Proof.
+  induction m as [|c r [IHA IHB]]; [split; intros; discriminate|]. split.
+  - intros q inw prev Hq H Hb Hp Hi. cbn [wf_from] in H. cbn [breaks_at_spaces] in Hb.
+    destruct (q =? 0) eqn:Eq.
+    + apply N.eqb_eq in Eq. subst q. specialize (Hp eq_refl). destruct (c =? brk) eqn:Eb.
+      * apply N.eqb_eq in Eb. subst c. rewrite text_brk, nobrk_brk, wds_cons.
+        change (step_q (0, false) 32) with (0, false, false). cbn [fst N.eqb andb]. change (is_space 32) with true. cbn iota.
+        apply andb_true_iff in Hb as [Hn Hb]. destruct inw; cbn [negb] in Hp; subst prev.
+        -- cbn [orb] in Hn. cbn [app]. apply IHB; assumption.
+        -- cbn [app]. apply (IHA 0 false true (or_introl eq_refl) H Hb); [reflexivity|intros X; contradiction].
+      * apply andb_true_iff in H as [Hv H]. rewrite (text_valid c r Hv), (nobrk_valid c r Hv), !wds_cons.
+        rewrite (step_q_wf 0 c Hv). cbn [fst N.eqb andb].
+        destruct (is_space c) eqn:Es.
+        -- destruct (space_not_special c Es) as (E1 & E2 & E3). rewrite E1, E2 in *. rewrite E3 in H. cbn [orb] in *.
+           rewrite (IHA 0 false true (or_introl eq_refl) H Hb); [reflexivity|reflexivity|intros X; contradiction].
+        -- destruct (c =? 59) eqn:E59.
+           ++ destruct r; [reflexivity|discriminate].
+           ++ destruct ((c =? 39) || (c =? 34)) eqn:Equ.
+              ** assert (Hqs : quote_state c).
+                 { apply orb_true_iff in Equ as [E|E]; apply N.eqb_eq in E; subst c; [right; left|right; right]; reflexivity. }
+                 assert (Hc0 : c <> 0) by (intros ->; discriminate Hv).
+                 rewrite (IHA c true false Hqs H Hb); [reflexivity|intros X; contradiction|reflexivity].
+              ** rewrite (IHA 0 true false (or_introl eq_refl) H Hb); [reflexivity|reflexivity|intros X; contradiction].
+    + apply andb_true_iff in H as [Hv H]. apply andb_true_iff in Hv as [Hv H92]. apply negb_true_iff in H92.
+      rewrite (valid_not_brk c Hv) in Hb.
+      rewrite (text_valid c r Hv), (nobrk_valid c r Hv), !wds_cons, (step_q_wf q c Hv), Eq, H92. cbn [fst andb].
+      rewrite Eq. cbn [andb]. apply N.eqb_neq in Eq.
+      destruct (c =? q) eqn:Ecq.
+      * apply N.eqb_eq in Ecq. subst c. rewrite (quote_not_space q Hq Eq) in Hb.
+        rewrite (IHA 0 true false (or_introl eq_refl) H Hb); [reflexivity|reflexivity|intros X; contradiction].
+      * rewrite (IHA q true (is_space c) Hq H Hb); [reflexivity|intros X; contradiction|reflexivity].
+  - intros H Hn Hb. cbn [wf_from N.eqb] in H. cbn [next_sp] in Hn. cbn [breaks_at_spaces] in Hb.
+    destruct (c =? brk) eqn:Eb.
+    + apply N.eqb_eq in Eb. subst c. rewrite text_brk, nobrk_brk, wds_cons.
+      change (step_q q0 32) with (q0, false). cbn [fst N.eqb andb q0]. change (is_space 32) with true. cbn iota. cbn [app].
+      cbn [orb] in Hb. apply andb_true_iff in Hb as [_ Hb]. apply IHB; assumption.
+    + apply andb_true_iff in H as [Hv H]. rewrite (text_valid c r Hv), (nobrk_valid c r Hv), !wds_cons.
+      rewrite (space_step c Hn). cbn [fst N.eqb andb q0]. rewrite Hn. cbn [app].
+      destruct (space_not_special c Hn) as (E1 & E2 & E3). rewrite E1, E2, E3 in H. cbn [orb] in H. rewrite Hn in Hb.
+      f_equal. apply (IHA 0 false true (or_introl eq_refl) H Hb); [reflexivity|intros X; contradiction].
+Qed.
+
+Lemma wds_trim_left t : wds q0 false (trim_left t) = wds q0 false t.
+Proof.
+  induction t as [|c r IH]; [reflexivity|]. cbn [trim_left]. destruct (is_space c) eqn:E; [|reflexivity].
+  rewrite wds_cons, (space_step c E). cbn [fst N.eqb q0 andb]. rewrite E. cbn [app]. exact IH.
+Qed.
+
+Lemma words_intact m : wf_stmt m = true -> breaks_at_spaces true m = true ->
+  words (normalise m) = words (nobrk m).
+Proof.
+  intros H Hb. unfold wf_stmt in H. unfold words, normalise. destruct (wf_ends m 0 H) as [a Ha].
+  rewrite Ha, trim_ends_semicolon, wds_trim_left, <- Ha.
+  apply (proj1 (wds_text m) 0 false true (or_introl eq_refl) H Hb); [reflexivity|intros X; contradiction].
+Qed.
+
+(* ------------------------------------------------------------------------------------ *)
+(* bytesToKey on the byte encodings of the keys of an ASCII delivery                      *)
+(* ------------------------------------------------------------------------------------ *)
+
+Definition ascii_key (k : N) : bool := ((32 <=? k) && (k <=? 126)) || (k =? keyEnter).
+
+Lemma ascii_key_cases k : ascii_key k = true -> In k (map N.of_nat (seq 32 95)) \/ k = 13.
+Proof.
+  unfold ascii_key. intros H. apply orb_true_iff in H as [H|H]; [left|right; apply N.eqb_eq, H].
+  apply andb_true_iff in H as [A B]. apply N.leb_le in A, B.
+  replace k with (N.of_nat (N.to_nat k)) by apply N2Nat.id. apply in_map, in_seq. lia.
+Qed.
+
+(* a printable ASCII byte or '\r' is one key, in either mode, whatever follows *)
+Lemma bytes_to_key_ascii k tail p : ascii_key k = true -> bytes_to_key (k :: tail) p = BKey k tail.
+Proof.
+  intros H. apply ascii_key_cases in H. destruct H as [H| ->].
+  - cbn [map seq] in H. destruct p;
+    repeat (destruct H as [<-|H]; [reflexivity|]); destruct H.
+  - destruct p; reflexivity.
+Qed.
+
+Lemma bytes_to_key_paste_start tail : bytes_to_key (paste_start_seq ++ tail) false = BKey keyPasteStart tail.
+Proof. reflexivity. Qed.
+
+Lemma bytes_to_key_paste_end tail : bytes_to_key (paste_end_seq ++ tail) true = BKey keyPasteEnd tail.
+Proof. reflexivity. Qed.
+
+(* a marker cut by the end of the data read so far is kept for the next Read *)
+Lemma bytes_to_key_partial_marker n :
+  (0 < n < 6)%nat ->
+  bytes_to_key (firstn n paste_start_seq) false = BNone (firstn n paste_start_seq) /\
+  bytes_to_key (firstn n paste_end_seq) true = BNone (firstn n paste_end_seq).
+Proof.
+  intros H. assert (Hn : n = 1%nat \/ n = 2%nat \/ n = 3%nat \/ n = 4%nat \/ n = 5%nat) by lia.
+  destruct Hn as [->|[->|[->|[->| ->]]]]; split; reflexivity.
+Qed.
+
+(* one delivered ASCII key at a time: the inner loop of readLine performs exactly
+   process_key on it (first step of `inner` on the encoding of k followed by anything) *)
+Lemma inner_step_ascii f t lip k tail : ascii_key k = true ->
+  inner (Datatypes.S f) t lip (k :: tail) =
+  match process_key t lip k with
+  | PStop o => IStop o
+  | PCont t' lip' => inner f t' lip' tail
+  | PLine ss p t' => ILine ss p t' tail
+  end.
+Proof. intros H. cbn [inner]. rewrite (bytes_to_key_ascii k tail (paste t) H). reflexivity. Qed.
